@@ -111,7 +111,7 @@ def run(ctx):
         # exactness of the input context (whole delivery)
         cfg = c0['cfg']; data = c0['inputs'][0]['data']
         names = [s.split('=')[1] for s in cfg['select'] if s.startswith('&')]
-        if a0['result'] == 'ok' and names and not cfg['only_objs'] and cfg['group'] is None and not cfg['sort'] and not cfg['unique'] and cfg['filter'] is None and cfg['split'] is None and not cfg['skip'] and cfg['take'] is None:
+        if a0['result'] == 'ok' and names and cfg['group'] is None and not cfg['sort'] and not cfg['unique'] and cfg['filter'] is None and cfg['split'] is None and not cfg['skip'] and cfg['take'] is None:
             rws = [json.loads(r) for r in rows(a0['stdout'])]
             pos = offsets(data); prev_end = None
             for t, r in enumerate(rws):
@@ -119,7 +119,8 @@ def run(ctx):
                 bad = None
                 if 'i' in r and r['i'] != t: bad = '&index is the 0-based ordinal among the values processed'
                 if 'f' in r and r['f'] != t: bad = '&index-in-file restarts at 0 in every file'
-                if all(k in r for k in ('sl', 'sc', 'el', 'ec')):
+                # with --only-objects-and-arrays the skipped scalars lie between the ranges: only the ordinals are judged (round 12, C17_12)
+                if not cfg['only_objs'] and all(k in r for k in ('sl', 'sc', 'el', 'ec')):
                     s = pos.get((r['sl'], r['sc'])); e = pos.get((r['el'], r['ec']))
                     if s is None or e is None or not s <= e: bad = 'start/end delimit a byte range'
                     else:
